@@ -19,6 +19,8 @@ pub struct Flags {
     pub drop_ev: bool,
     /// clone in every state and run the operation on both instances (C16)
     pub clone_ev: bool,
+    /// perturb allocation addresses: keep a pseudo-random number of node-sized blocks alive per test
+    pub shuffle: u64,
 }
 
 /// output that rotates to a new file at test boundaries (`<prefix>.<n>.ndjson`)
@@ -231,6 +233,9 @@ impl<'a, K: KeyT, S: Sut<K>> Runner<'a, K, S> {
     }
 
     fn replay(&self, path: &[Value]) -> Option<S> {
+        track::reset_tokens();
+        track::drops_clear();
+        self.perturb();
         let mut c = self.build()?;
         let ok = catch_unwind(AssertUnwindSafe(|| {
             for op in path {
@@ -246,6 +251,30 @@ impl<'a, K: KeyT, S: Sut<K>> Runner<'a, K, S> {
             std::mem::forget(c);
             None
         }
+    }
+
+    /// C17 (allocation addresses): shift the heap layout differently for every test
+    fn perturb(&self) {
+        if self.fl.shuffle == 0 {
+            return;
+        }
+        thread_local! { static PAD: std::cell::RefCell<(u64, Vec<Vec<u8>>)> = const { std::cell::RefCell::new((0, Vec::new())) }; }
+        PAD.with(|p| {
+            let mut p = p.borrow_mut();
+            if p.0 == 0 {
+                p.0 = self.fl.shuffle | 1;
+            }
+            let mut x = p.0;
+            x ^= x << 13;
+            x ^= x >> 7;
+            x ^= x << 17;
+            p.0 = x;
+            let keep = (x % 11) as usize;
+            p.1.clear();
+            for i in 0..keep {
+                p.1.push(vec![0u8; 48 + 16 * ((x >> (i % 8)) as usize % 3)]);
+            }
+        });
     }
 
     fn end_test(&mut self, c: S, ids: &mut AddrIds) {
@@ -288,12 +317,12 @@ impl<'a, K: KeyT, S: Sut<K>> Runner<'a, K, S> {
             self.stats.tests += 1;
             let mut ids = AddrIds::new();
             // the state actually reached; re-announce it only if it differs from the last jump
-            let pre = observe(&c, &self.uni, &Flags { audit: false, tok: self.fl.tok, ..Default::default() }, &mut AddrIds::new());
+            let pre = observe(&c, &self.uni, &self.fl, &mut AddrIds::new());
             let same = match &base_obs {
-                Some(b) => strip(b) == strip(&pre),
+                Some(b) => *b == pre,
                 None => false,
             };
-            if !same || self.fl.tok || self.fl.audit {
+            if !same {
                 let o = self.jump(&c, &mut ids);
                 base_obs = Some(o);
             }
@@ -361,6 +390,9 @@ impl<'a, K: KeyT, S: Sut<K>> Runner<'a, K, S> {
 
     /// one chained history on a fresh instance
     pub fn run_hist(&mut self, hist: &[Value]) {
+        track::reset_tokens();
+        track::drops_clear();
+        self.perturb();
         let Some(mut c) = self.build() else { return };
         self.stats.tests += 1;
         let mut ids = AddrIds::new();
